@@ -125,7 +125,7 @@ PROPS = {
     "C19": {"driver": _lazy("pwv.drivers_pure", "c19_driver"), "profile": "contract-overlap",
             "rule": "contract on Envelope.overlap_integral against the closed-form Gaussian overlap, plus exchange symmetry; pulse widths log-uniform over 1e-15..10 s including the 42.45 fs default, centre offsets and delays 0..8 widths, both argument orders; a case = one judged call; cell = (decade of the narrower width, equal/unequal widths, delay in widths)"},
     "C01": {"profile": "ops", "rule": "seeded online-generated programs (profile ops: worlds of 1-3 envelopes, 0-2 custom states, lone subsystems; 4-12 steps; preparation by composite gates, channels, measurements, combines, reorders) - every single-subsystem apply_operation is one case, judged against (O x I) rho (O x I)^dagger[/trace] on the joint state of all live subsystems; cell = (operation family.type, entry point, storage of the target, level, state class, contraction flag); trivial iff state class is a fresh product of basis labels",  "oracles": [lambda r: O.judge_apply(r, "C01")]},
-    "C02": {"profile": "structure", "rule": "every combine / reorder / expand / contract / CompositeEnvelope(...) / trace_out call of generated programs (profile structure, incl. scripted multi-composite prefixes) is one case: joint state before = after; trace_out return value = partial trace in the requested order; cell = (call or trace_out-value, entry point, storage, level, state class, #arguments); trivial iff state class is a fresh product of basis labels",  "oracles": [O.judge_c02], "opts": {"multi_ce": 0.25}},
+    "C02": {"profile": "structure", "rule": "every combine / reorder / expand / contract / CompositeEnvelope(...) / trace_out call of generated programs (profile structure, incl. scripted multi-composite prefixes) is one case: joint state before = after; trace_out return value = partial trace in the requested order; cell = (call or trace_out-value, entry point, storage, level, state class, #arguments); trivial iff state class is a fresh product of basis labels",  "oracles": [O.judge_c02], "opts": {"multi_ce": 0.25, "lifecycle": 0.2}},
     "C03": {"profile": "composite", "rule": "every multi-operand apply_operation (CX, CZ, SWAP, CSWAP, beam splitter, expression over 2-3 operands of mixed kinds, operation objects reused on other operands) of generated programs is one case, judged on the joint state with the k-th tensor factor bound to the k-th operand; cell = (operation, entry point, storages, levels, state class, contraction, operands given out of canonical order?); trivial iff state class is a fresh product of basis labels",  "oracles": [lambda r: O.judge_apply(r, "C03")]},
     "C04": {"profile": "measure", "rule": "every measure call of generated programs is one case: each intercepted jax.random.choice draw (p, outcome set, key) is matched with a member of the specified measured set whose conditional reduced diagonal equals p; cell = (measure, entry point, storages, levels, state class, flags, kinds of the measured set); trivial iff state class is a fresh product of basis labels",  "oracles": [lambda r: O.judge_measure(r, "C04")], "free_mix": 0.25},
     "C05": {"profile": "measure", "oracles_extra": "continuation", "rule": "every measure call (branch chosen uniformly over the support by the steered sampler, or by the real sampler) is one case: outcome keys, fates of measured subsystems, collapsed joint state of the survivors; plus one dead probe per freshly destroyed subsystem; cell = (measure|dead-probe, entry point, storages, levels, state class, flags, kinds); trivial iff state class is a fresh product of basis labels",  "oracles": [lambda r: O.judge_measure(r, "C05"), O.judge_dead_probe],
